@@ -47,7 +47,7 @@ def _limit_as(nbytes):
     return f
 
 
-def run_pna(args, cwd, timeout=20, env=None, stdin=None, threads=None, mem_limit=None):
+def run_pna(args, cwd, timeout=20, env=None, stdin=None, threads=None, mem_limit=16 << 30):
     """run pna; returns dict(rc, out, err, timeout). rc 101 = Rust panic.  mem_limit (bytes of address space): a
     run-away allocation loop is stopped by the allocator (abort, rc -6) instead of eating the machine."""
     e = dict(os.environ, TMPDIR=os.path.join(cwd, "tmp") if os.path.isdir(os.path.join(cwd, "tmp")) else cwd,
